@@ -4,3 +4,4 @@ import GBExtracted.Pipelines
 import GBExtracted.Effects
 import GBExtracted.Dispatch
 import GBExtracted.Formulas
+import GBExtracted.Signatures
